@@ -1815,7 +1815,9 @@ class IRGenerator:
             # also recurse on enumerated subtypes for structs if present
             seen.add(data_type)
             output_types[data_type.namespace.name].append(data_type)
-            for field in data_type.all_fields:
+            # Only the type's own fields: inherited fields are visited with the parent type
+            # below, in the namespace their doc references are relative to.
+            for field in data_type.fields:
                 self._find_dependencies_recursive(field, seen, output_types, output_routes,
                                                   type_context=data_type)
             if data_type.parent_type is not None:
